@@ -190,6 +190,33 @@ def r19_2(ck):
                 if isinstance(lp, ast.For) and 'timeline' in A.unparse(
                         lp.iter):
                     replaced = s2
+        # the dictionary that collects same-time events must be a new one,
+        # not the caller's
+        aliased = None
+        for s3 in A.walk_no_nested(m.node):
+            if isinstance(s3, ast.Assign) and isinstance(
+                    s3.targets[0], ast.Subscript) and isinstance(
+                    s3.targets[0].value, ast.Name) and derives(
+                    m.node, s.value, lambda x, nm=s3.targets[0].value.id:
+                    A.is_name(x, nm), at=s):
+                v3 = s3.value
+                fresh = isinstance(v3, ast.Dict) or (
+                    isinstance(v3, ast.Call) and A.call_name(v3) in (
+                        'dict', 'copy', 'deepcopy'))
+                lp3 = s3
+                while lp3 is not None and not isinstance(lp3, ast.For):
+                    lp3 = getattr(lp3, '_parent', None)
+                if lp3 is not None and not fresh and merged:
+                    aliased = s3
+        ck.require(aliased is None, 'R19.2', m,
+                   aliased if aliased is not None else s,
+                   'same-time events are merged into a new dictionary',
+                   "the merged event aliases the caller's dictionary (%s) "
+                   'and a later same-time event is merged INTO it: an '
+                   'event dictionary reused at another time fires with '
+                   'the extra changes' % (A.short(aliased, 50)
+                                          if aliased is not None else ''),
+                   aliased if aliased is not None else s)
         ck.require(merged and replaced is None, 'R19.2', m,
                    replaced if replaced is not None else s,
                    'events with equal times are merged with dict.update',
@@ -408,6 +435,26 @@ def r19_5(ck):
             ck.fail('R19.5', f, pops[0],
                     'the removal is not in the loop that fires the events',
                     pops[0])
+    # per-event updates are combined deeply into the returned update
+    rets0 = [r for r in A.walk_no_nested(f.node) if isinstance(r, ast.Return)]
+    if rets0 and isinstance(rets0[0].value, ast.Name):
+        un = rets0[0].value.id
+        shallow = [c for c in A.calls_in(f.node, 'update')
+                   if A.is_name(A.call_receiver(c), un)]
+        ck.require(not shallow, 'R19.5', f,
+                   shallow[0] if shallow else f.node.name,
+                   'the changes of the events of one tick are combined with '
+                   'a deep merge',
+                   'the update of a later event is combined with a shallow '
+                   'dict.update: when two events are due in one tick the '
+                   "earlier event's changes under the same port are "
+                   'dropped', shallow[0] if shallow else None)
+        deep = [c for c in A.calls_in(f.node, ('deep_merge_combine_lists',
+                                               'deep_merge'))
+                if A.is_name(A.arg_of(c, 0), un)]
+        ck.require(bool(deep), 'R19.5', f, f.node.name,
+                   'event changes are merged into the returned update',
+                   'no deep merge into the returned update')
     # the update always advances the process clock
     rets = [r for r in A.walk_no_nested(f.node) if isinstance(r, ast.Return)]
     ok = bool(rets) and derives(
